@@ -185,6 +185,7 @@ func runC12(src sim.Source, o Opts) *Result {
 		CW        bool // any shape: the handler (route or special) also takes a CloneWith copy, as a writer-wrapping middleware would
 		CWSame    bool // ... with the writer and request the context already carries
 		NoQuery bool // the request has no query string; its handler writes a value of its own into QueryParams()
+		Rewrite bool // the handler replaces the request by one with a longer query (SetRequest) after having read the query
 		Via     int  // how a route handler answers: 0 WriteHeader+Write, 1 Context.String, 2 Context.Blob, 3 Context.Stream
 		FailAt  int  // the connection accepts this many body bytes and then fails (-1: never)
 		Var     int  // generated routes: which parameters take a value that is also a static text (drives backtracking)
@@ -193,7 +194,7 @@ func runC12(src sim.Source, o Opts) *Result {
 	plans := make([][]reqPlan, nclients)
 	for c := range plans {
 		for i, n := 0, 2+src.Intn("nreq", 6); i < n; i++ {
-			plans[c] = append(plans[c], reqPlan{Shape: sim.Pick(src, "shape", shapes), Route: src.Intn("route", len(routes)), Yields: src.Intn("yields", 3), Rerange: src.Intn("rerange", 3) == 0, NoQuery: src.Intn("noquery", 4) == 0, CloneLate: sim.Bool(src, "clonelate"), MutReq: sim.Bool(src, "mutreq"), CW: src.Intn("alsoclonewith", 4) == 3, CWSame: src.Intn("clonewithsame", 3) == 2, Var: sim.Pick(src, "pvar", []int{0, 0, 1, 2, 3, 5, 6, 7}), Via: sim.Pick(src, "answervia", []int{0, 0, 1, 2, 3}), FailAt: sim.Pick(src, "connfailsat", []int{-1, -1, -1, 0, 1, 2, 4})})
+			plans[c] = append(plans[c], reqPlan{Shape: sim.Pick(src, "shape", shapes), Route: src.Intn("route", len(routes)), Yields: src.Intn("yields", 3), Rerange: src.Intn("rerange", 3) == 0, NoQuery: src.Intn("noquery", 4) == 0, CloneLate: sim.Bool(src, "clonelate"), MutReq: sim.Bool(src, "mutreq"), CW: src.Intn("alsoclonewith", 4) == 3, CWSame: src.Intn("clonewithsame", 3) == 2, Var: sim.Pick(src, "pvar", []int{0, 0, 1, 2, 3, 5, 6, 7}), Rewrite: src.Intn("rewritequery", 4) == 3, Via: sim.Pick(src, "answervia", []int{0, 0, 1, 2, 3}), FailAt: sim.Pick(src, "connfailsat", []int{-1, -1, -1, 0, 1, 2, 4})})
 		}
 	}
 	withWriter := src.Intn("writer", 2) == 1
@@ -330,6 +331,17 @@ func runC12(src sim.Source, o Opts) *Result {
 						c.QueryParams().Set("seen", tok) // the values are this request's own: writing into them is its business
 					}
 					c.SetHeader("X-Resp", tok)
+					if pl.Rewrite && rawQuery != "" {
+						// a rewriting middleware: the query has been read through the context, then the request is replaced
+						// by one with another query (same token): from then on the context answers for the request it carries
+						_ = c.QueryParam("tok")
+						r2 := c.Request().Clone(c.Request().Context())
+						r2.URL.RawQuery = rawQuery + "&rewritten=" + tok
+						c.SetRequest(r2)
+						if got, want := c.QueryParams().Encode(), r2.URL.Query().Encode(); got != want || c.QueryParam("rewritten") != tok {
+							fail("request %s: after SetRequest with the query %q the context reports the query values %q", tok, r2.URL.RawQuery, got)
+						}
+					}
 					for y := 0; y < pl.Yields; y++ {
 						s.Yield(sim.PtHandler)
 						reobserved[ci]++
